@@ -396,6 +396,49 @@ int main(int argc, char** argv) {
             std::string id = out.add("rd", hex_bytes(bytes.data(), bytes.size()));
             out.I(id, st == "ok" ? loaded : st);
         }
+        // ---- mal: damaged copies of the file (one byte replaced, a record removed / duplicated / swapped with its neighbour, a
+        // length field changed): read_gds versus read_gds_model, error codes included
+        if (want("mal")) {
+            // record boundaries
+            std::vector<size_t> offs;
+            for (size_t p = 0; p + 4 <= bytes.size();) {
+                size_t len = ((size_t)bytes[p] << 8) | bytes[p + 1];
+                if (len < 4 || p + len > bytes.size()) break;
+                offs.push_back(p);
+                p += len;
+            }
+            for (int v = 0; v < 3 && offs.size() > 3; v++) {
+                std::vector<uint8_t> mb = bytes;
+                size_t k = 1 + g.below(offs.size() - 2);
+                size_t a = offs[k], e = k + 1 < offs.size() ? offs[k + 1] : bytes.size();
+                const char* what = "";
+                switch (g.below(5)) {
+                    case 0: mb[g.below(mb.size())] = (uint8_t)g.below(256); what = "byte"; break;
+                    case 1: mb.erase(mb.begin() + (long)a, mb.begin() + (long)e); what = "drop"; break;
+                    case 2: mb.insert(mb.begin() + (long)a, bytes.begin() + (long)a, bytes.begin() + (long)e); what = "dup"; break;
+                    case 3: {
+                        size_t e2 = k + 2 < offs.size() ? offs[k + 2] : bytes.size();
+                        std::vector<uint8_t> sw(bytes.begin(), bytes.begin() + (long)a);
+                        sw.insert(sw.end(), bytes.begin() + (long)e, bytes.begin() + (long)e2);
+                        sw.insert(sw.end(), bytes.begin() + (long)a, bytes.begin() + (long)e);
+                        sw.insert(sw.end(), bytes.begin() + (long)e2, bytes.end());
+                        mb = sw;
+                        what = "swap";
+                    } break;
+                    default: mb[a + 2] = (uint8_t)g.below(64); what = "type"; break;  // another record type, same payload
+                }
+                std::string mp = scratch + "/mal.gds";
+                FILE* mf = fopen(mp.c_str(), "wb");
+                fwrite(mb.data(), 1, mb.size(), mf);
+                fclose(mf);
+                std::string st2;
+                std::string ld = load_dump(mp, 0, NULL, false, &st2);
+                std::string id = out.add("mal", hex_bytes(mb.data(), mb.size()));
+                out.I(id, st2 == "ok" ? ld : st2);
+                out.count(std::string("mal:") + what);
+                out.count(std::string("mal:result:") + (st2 == "ok" ? "loads" : st2.substr(0, 6)));
+            }
+        }
         // ---- rt: the property on the implementation alone: load(save(L)) == canon(L), stable under more cycles
         if (want("rt")) {
             std::string id = out.add("rt", plan);
